@@ -70,7 +70,10 @@ RandCfg(u) == LET n == RandomElement(3..NGeom)
                   qs == [i \in 1..6 |-> RandQuery(i)]
               IN [scene |-> sc, queries |-> qs,
                   eligible |-> [i \in 1..6 |-> [g \in 1..n |-> Eligible(sc[g], qs[i])]],
-                  nworld |-> RandomElement(1..3), shared_rays |-> RandomElement(BOOLEAN)]
+                  nworld |-> RandomElement(1..3), shared_rays |-> RandomElement(BOOLEAN),
+                  \* a flex in the scene: rays ignore it (as mj_ray does), but the scene BVH of a render context also holds its boxes
+                  \* (put_model rejects a flex next to a height field: "Flex-HField collision is not implemented")
+                  flex |-> IF RandomElement(1..3) = 1 /\ (\A i \in 1..n : sc[i].type # "hfield") THEN RandomElement({"cloth", "rope"}) ELSE "none"]
 
 VARIABLES c, k
 vars == <<c, k>>
